@@ -388,12 +388,42 @@ static void part_twoparty(long &kc, const Group &G, int scale) {
 }
 
 // ------------------------------------------------------------------ n-party in SimNet
+// scripted deviation (party `dev` runs the honest code, its endpoints deviate): first private message to `victim` +1 (a wrong
+// sub-share) and/or the payload of its `alter_k`-th own reliable broadcast +1 (k enumerated over the whole flip: commitments,
+// end markers, answers, opening).  The combination "wrong sub-share, honest answer to the complaint, mismatching opening" is the
+// multi-step deviation behind seeded change c17_adjusted_share_swapped_indices.
 struct Scn { size_t n = 2, t = 0; std::vector<int> faulty, silent; int slow = -1; long D = 0; bool jitter = false; double preempt = 0.0; std::string label;
+	int dev = -1, victim = -1; long alter_k = 0;
 	// 3t < n: inside the resilience bound of the reliable broadcast (it prints a warning otherwise).  Beyond it every
 	// delivery needs the r-ready of *all* parties, and a party that already waits in a unicast Receive does not serve
 	// the broadcast: completion then depends on the schedule, so only safety is judged there.
 	bool within_rbc_bound() const { return 3 * t < n; } };
 struct SentMsg { size_t from; long at; Z v; int net; };
+
+class DevUni : public SimUnicast {   // private links of the deviating party
+public:
+	int victim = -1; long cnt = 0; bool fired = false;
+	DevUni(size_t n_, size_t j_, Net *nt, size_t sched, time_t to) : SimUnicast(n_, j_, nt, sched, to) {}
+	bool Send(mpz_srcptr m, const size_t i, time_t to) override {
+		if ((int)i == victim && cnt++ == 0) { Z w; mpz_add_ui(w.v, m, 1UL); fired = true; return SimUnicast::Send(w.v, i, to); }
+		return SimUnicast::Send(m, i, to);
+	}
+	bool Send(const std::vector<mpz_srcptr> &m, const size_t i, time_t to) override { return SimUnicast::Send(m, i, to); }
+};
+class DevBc : public SimUnicast {    // broadcast-layer endpoint: own broadcast = r-send tuple (ID, j, s, 1, payload), new (ID, s) = new broadcast
+public:
+	long k = 0, nb = 0; bool fired = false, have_last = false, repl = false; Z last_id, last_s, repl_val;
+	DevBc(size_t n_, size_t j_, Net *nt, size_t sched, time_t to) : SimUnicast(n_, j_, nt, sched, to) {}
+	bool Send(mpz_srcptr m, const size_t i, time_t to) override { return SimUnicast::Send(m, i, to); }
+	bool Send(const std::vector<mpz_srcptr> &m, const size_t i, time_t to) override {
+		if (m.size() == 5 && mpz_cmp_ui(m[3], 1UL) == 0 && mpz_cmp_ui(m[1], (unsigned long)j) == 0) {
+			bool first = !(have_last && mpz_cmp(m[0], last_id.v) == 0 && mpz_cmp(m[2], last_s.v) == 0);
+			if (first) { have_last = true; mpz_set(last_id.v, m[0]); mpz_set(last_s.v, m[2]); repl = false; nb++; if (nb == k && !fired) { fired = true; repl = true; mpz_add_ui(repl_val.v, m[4], 1UL); } }
+			if (repl) { std::vector<mpz_srcptr> mm(m); mm[4] = repl_val.v; return SimUnicast::Send(mm, i, to); }
+		}
+		return SimUnicast::Send(m, i, to);
+	}
+};
 
 static void run_nparty(const Group &G, long k, const Scn &sc, Counter &C) {
 	size_t n = sc.n, t = sc.t;
@@ -402,7 +432,9 @@ static void run_nparty(const Group &G, long k, const Scn &sc, Counter &C) {
 	uint64_t runid = (uint64_t)k * 1000003ULL + C.run++;
 	Sched sched(ctx.seed * 0x9e3779b1ULL + runid); sched.use_vclock = true; sched.random_pick = true;
 	Net uni(n, &sched), bc(n, &sched); uni.preempt_p = bc.preempt_p = sc.preempt;
-	std::vector<bool> isf(n, false), issil(n, false); for (int f : sc.faulty) isf[f] = true; for (int f : sc.silent) issil[f] = true;
+	std::vector<bool> isf(n, false), issil(n, false), isdev(n, false); for (int f : sc.faulty) isf[f] = true; for (int f : sc.silent) issil[f] = true;
+	if (sc.dev >= 0) isdev[sc.dev] = true;
+	bool dev_fired_uni = false, dev_fired_bc = false; long dev_nb = 0;
 	Rng jit(ctx.seed, runid, 77);
 	long Tw = -1; std::vector<SentMsg> early; std::vector<std::pair<size_t, uint64_t>> late; long long nmsgs = 0;
 	// link delays apply to links between different parties only: a party's messages to itself (the broadcast
@@ -423,7 +455,9 @@ static void run_nparty(const Group &G, long k, const Scn &sc, Counter &C) {
 	for (size_t i = 0; i < n; i++) {
 		if (issil[i]) { sched.spawn([]() {}, ctx.seed, runid); continue; }      // a crashed party: never sends anything
 		sched.spawn([&, i]() {
-			SimUnicast aiou(n, i, &uni, aiounicast::aio_scheduler_roundrobin, TO), aiou2(n, i, &bc, aiounicast::aio_scheduler_roundrobin, TO);
+			DevUni aiou(n, i, &uni, aiounicast::aio_scheduler_roundrobin, TO); DevBc aiou2(n, i, &bc, aiounicast::aio_scheduler_roundrobin, TO);
+			if (isdev[i]) { aiou.victim = sc.victim; aiou2.k = sc.alter_k; }
+			struct Fin { DevUni &u; DevBc &b; bool on; bool &fu, &fb; long &nb; ~Fin() { if (on) { fu = u.fired; fb = b.fired; nb = b.nb; } } } fin{aiou, aiou2, isdev[i], dev_fired_uni, dev_fired_bc, dev_nb};
 			CachinKursawePetzoldShoupRBC rbc(n, t, i, &aiou2, aiounicast::aio_scheduler_roundrobin, TO);
 			rbc.setID("C17 coin flip");
 			std::stringstream err;
@@ -437,12 +471,14 @@ static void run_nparty(const Group &G, long k, const Scn &sc, Counter &C) {
 	    .kv("virtual_seconds", (long long)(g_vtime - t0)).kv("messages", nmsgs).kv("hung", sched.hung);
 	{ std::vector<std::string> as, qs; for (size_t i = 0; i < n; i++) { as.push_back(mpz_dec(a[i].v)); std::string q; for (size_t x : ed[i]->rvss->Qual) q += std::to_string(x) + ","; qs.push_back(q); } w.arr("outputs", as).arr("Qual", qs); }
 	count("np_runs"); count("np_n" + std::to_string(n)); count("np_messages", nmsgs);
-	bool dev = !sc.faulty.empty() || !sc.silent.empty();
+	bool dev = !sc.faulty.empty() || !sc.silent.empty() || sc.dev >= 0;
+	if (sc.dev >= 0) { count("np_runs_with_scripted_deviation"); if (dev_fired_uni) count("np_dev_wrong_subshare_sent"); if (dev_fired_bc) count("np_dev_broadcast_altered"); if (sc.alter_k > 0 && !dev_fired_bc) count("np_dev_alter_beyond_last_broadcast");
+		count("np_dev_broadcasts_in_flip_n" + std::to_string(n) + "=" + std::to_string(dev_nb)); w.kv("dev_party", sc.dev).kv("dev_victim", sc.victim).kv("dev_alter_k", (long long)sc.alter_k); }
 	if (sc.faulty.size()) count("np_runs_with_faulty_party"); if (sc.silent.size()) count("np_runs_with_silent_party"); if (sc.slow >= 0) count("np_runs_with_slow_party"); if (!dev) count("np_runs_all_honest");
 	bool broken = false;
 	for (size_t i = 0; i < n; i++) { Task *tk = sched.tasks[i]; if (tk->threw_other || tk->threw_std) { J ww = w; ww.kv("party", (long long)i).kv("exception", tk->exc); violation("C17/nparty/exception", "an exception escaped Flip", ww.str()); broken = true; } }
 	if (sched.hung) { violation("C17/hang/n-party", "n-party flip did not terminate", w.str()); broken = true; }
-	std::vector<size_t> H; for (size_t i = 0; i < n; i++) if (!isf[i] && !issil[i]) H.push_back(i);
+	std::vector<size_t> H; for (size_t i = 0; i < n; i++) if (!isf[i] && !issil[i] && !isdev[i]) H.push_back(i);
 	if (!sc.within_rbc_bound()) {
 		count("np_runs_beyond_broadcast_bound");
 		std::vector<size_t> H2; for (size_t i : H) if (ret[i] == 1) H2.push_back(i);
@@ -462,13 +498,14 @@ static void run_nparty(const Group &G, long k, const Scn &sc, Counter &C) {
 	for (int s : sc.silent) if (std::find(Q.begin(), Q.end(), (size_t)s) != Q.end()) violation("C17/nparty/silent-party-in-qual", "a party that never sent anything is in Qual", w.str());
 	// sum over Qual of the committed shares; the share of a party is what its own RVSS object holds,
 	// checked against the commitment C_j0 that the honest parties hold for it
-	Z sum, cm; bool commitments_ok = true;
+	Z sum, cm; bool commitments_ok = true, sum_checkable = true;
 	for (size_t j : Q) {
 		mpz_add(sum.v, sum.v, ed[j]->rvss->a_i); mpz_mod(sum.v, sum.v, G.q.v);
 		commit(cm, ed[j]->rvss->a_i, ed[j]->rvss->hata_i, G);
-		for (size_t i : H) if (mpz_cmp(cm.v, ed[i]->rvss->C_ik[j][0])) commitments_ok = false;
+		for (size_t i : H) if (mpz_cmp(cm.v, ed[i]->rvss->C_ik[j][0])) { if (isdev[j]) sum_checkable = false; else commitments_ok = false; }
 	}
 	C.evals += 2;
+	if (!sum_checkable) { count("np_sum_not_checkable_commitment_altered"); mpz_set(sum.v, a[h0].v); }   // the scripted party altered its own commitment: its committed share is unknown to the harness
 	if (!commitments_ok) violation("C17/nparty/commitment-differs-from-share", "g^a_j h^hat-a_j of a qualified party differs from the commitment C_j0 held by an honest party", w.str());
 	if (mpz_cmp(sum.v, a[h0].v)) { J ww = w; ww.kz("sum_of_committed_shares_of_Qual", sum.v); violation(dev ? "C17/nparty/output-not-sum-of-committed-shares/deviating-party" : "C17/nparty/output-not-sum-of-committed-shares/all-honest", "coin value differs from the sum mod q of the committed shares of Qual", ww.str()); }
 	else count("np_sum_ok");
@@ -521,6 +558,18 @@ static void part_nparty(long &kc, const Group &G) {
 				add(n, t, {}, {(int)((n + rep + 2) % n)}, -1, 0, false, 0.0, "silent");
 				if (t >= 2) add(n, t, {(int)((n + rep) % n)}, {(int)((n + rep + 3) % n)}, -1, 0, false, 0.0, "faulty+silent");
 			}
+		}
+	}
+	// scripted deviations (appended: earlier case numbers unchanged): every broadcast position k of the flip (positions beyond the
+	// last broadcast do not fire, counted), alone and combined with a wrong sub-share to one victim; k = 0: wrong sub-share only
+	{
+		std::vector<std::pair<size_t, size_t>> nts = {{4, 1}}; if (!ctx.quick()) { nts.push_back({5, 1}); nts.push_back({7, 2}); }
+		for (auto &nt : nts) for (long ak = 0; ak <= (long)(nt.second + 13); ak++) for (int withshare = 0; withshare < 2; withshare++) {
+			if (ak == 0 && !withshare) continue;
+			size_t n = nt.first, t = nt.second; int dv = (int)((ak + withshare) % (long)n), vic = (int)((dv + 1 + ak) % (long)n); if (vic == dv) vic = (dv + 1) % (int)n;
+			add(n, t, {}, {}, -1, 0, false, 0.0, "scripted");
+			Scn &s = L.back(); s.dev = dv; s.victim = withshare ? vic : -1; s.alter_k = ak;
+			s.label += " dev=" + std::to_string(dv) + (withshare ? " wrong-subshare-to=" + std::to_string(vic) : "") + " alter_k=" + std::to_string(ak);
 		}
 	}
 	for (size_t i = 0; i < L.size(); i++) {
